@@ -21,3 +21,12 @@ Print Assumptions ser2_sem.
 Print Assumptions hybrid2_sem.
 Print Assumptions inverse_hybrid2_sem.
 Print Assumptions ladder_sem_gen.
+
+(* the same theorem in the phasor domain: the field of Gaussian rationals, s = j omega
+   (the correspondence evaluation runs the regenerated leaf table there for ac sources) *)
+Require Import LT.QcI.
+Local Open Scope F_scope.
+Corollary oneport_sem_phasor (L : Type) (ld : L -> ldata QcIF) (t : tree L) :
+  admissible ld t -> forall v i : QcIF, sem ld t v i <-> v = Voc ld t - Zt ld t * i.
+Proof. apply oneport_sem. Qed.
+Print Assumptions oneport_sem_phasor.
